@@ -325,6 +325,11 @@ type WireScript struct {
 	Frames []Frame `json:"frames"`
 	Chunks []int   `json:"chunks,omitempty"` // write sizes, cycled; empty = one write per frame
 	Cut    int64   `json:"cut"`              // send only this many bytes in total; -1 = everything
+	// NodeWrite > 0 (surface b): after the handshake the node itself sends one message of this many payload bytes through
+	// Peer.WriteMsg (as the protocol manager does) with a short write deadline, while the remote takes only RemoteReads
+	// bytes of it off the connection and then stops reading
+	NodeWrite   int `json:"nodeWrite,omitempty"`
+	RemoteReads int `json:"remoteReads,omitempty"`
 	End    string  `json:"end"`              // "close": close after sending; "hold": keep silent, close after the node did or the hold time passed; "probe" (b): send one more well-formed frame and see whether the node delivers it or closes; "probe" (e): wait for the verdict of the node's handshake, then the same if it accepted
 }
 
